@@ -249,3 +249,80 @@ Proof.
   eapply forces_list_wf; [|exact (parse_boxes_wf _ _ _ E)].
   apply run_ops_forces.
 Qed.
+
+(* ------------------------------------------------------------------ the sanitizer's own tree operations keep every header's declared size:
+   lazy parses and the in-place rewrite of the table entries (same number of bytes).  So on the tree the sanitizer serialises, the
+   calculated header of every box IS its parsed header - the assumption under which Mp4/Box.v writes the parsed headers back. *)
+Definition Rsz (n n' : node) : Prop :=
+  node_wf n = true -> sized n -> node_wf n' = true /\ sized n' /\ node_encoded_len n' = node_encoded_len n.
+
+Lemma Rsz_refl n : Rsz n n.
+Proof. intros Hw Hs. auto. Qed.
+Lemma Rsz_trans a b c : Rsz a b -> Rsz b c -> Rsz a c.
+Proof. intros H1 H2 Hw Hs. destruct (H1 Hw Hs) as (Hw1 & Hs1 & E1). destruct (H2 Hw1 Hs1) as (Hw2 & Hs2 & E2). repeat split; auto. congruence. Qed.
+Lemma Rsz_forces n n' : forces n n' -> Rsz n n'.
+Proof. intros Hf Hw Hs. repeat split; [exact (forces_wf _ _ Hf Hw) | exact (forces_sized _ _ Hf Hw Hs) | exact (forces_len _ _ Hf Hw)]. Qed.
+
+Lemma Rsz_list ks ks' : Forall2 Rsz ks ks' -> forallb node_wf ks = true -> Forall sized ks ->
+  forallb node_wf ks' = true /\ Forall sized ks' /\ nodes_encoded_len ks' = nodes_encoded_len ks.
+Proof.
+  induction 1 as [|k k' r r' Hk _ IH]; intros Hw Hs; [auto|].
+  cbn [forallb] in Hw. apply andb_prop in Hw. destruct Hw as [Hw1 Hw2]. inversion Hs as [|? ? Hs1 Hs2]; subst.
+  destruct (Hk Hw1 Hs1) as (A & B & C). destruct (IH Hw2 Hs2) as (D & E & F).
+  repeat split; [cbn [forallb]; rewrite A, D; reflexivity | constructor; assumption |].
+  unfold nodes_encoded_len in *. cbn [map fold_right]. rewrite C, F. reflexivity.
+Qed.
+
+Lemma Rsz_kids h ks ks' : Forall2 Rsz ks ks' -> Rsz (Cont h ks) (Cont h ks').
+Proof.
+  intros F Hw Hs. cbn [node_wf node_hdr] in Hw. apply andb_prop in Hw. destruct Hw as [Ht Hk].
+  inversion Hs as [| ? ? Hd Hall |]; subst.
+  destruct (Rsz_list _ _ F Hk Hall) as (A & B & C).
+  repeat split.
+  - cbn [node_wf node_hdr]. rewrite Ht, A. reflexivity.
+  - constructor; [rewrite C; exact Hd | exact B].
+  - cbn [node_encoded_len]. fold (nodes_encoded_len ks'). fold (nodes_encoded_len ks). rewrite C. reflexivity.
+Qed.
+
+Lemma shift_table_Rsz f g n n' u : shift_table f g n = Ok (n', u) -> Rsz n n'.
+Proof.
+  destruct n as [h d|h ks|h w c e]; cbn [shift_table]; intros H; try discriminate.
+  destruct (map_entries (S (length e)) (N.to_nat w) (if w =? 4 then f else g) e) as [e'| | | |] eqn:E; cbn [rbind] in H; try discriminate.
+  injection H as <- _. apply map_entries_length in E. intros Hw Hs. inversion Hs as [| | ? ? ? ? Hd]; subst.
+  repeat split; [exact Hw | constructor; rewrite E; exact Hd | cbn [node_encoded_len]; rewrite E; reflexivity].
+Qed.
+
+Lemma each_trak_shift_Rsz f g kids kids' l : each_trak kids (shift_table f g) = Ok (kids', l) -> Forall2 Rsz kids kids'.
+Proof.
+  apply (each_trak_rel Rsz).
+  - exact Rsz_refl.
+  - exact Rsz_trans.
+  - intros n n' E. apply Rsz_forces, forces_cont, E.
+  - intros w n n' E. apply Rsz_forces. exact (forces_table w _ _ E).
+  - exact Rsz_kids.
+  - intros n n' a. apply shift_table_Rsz.
+Qed.
+
+(* the moov arm followed by the offset rewrite, as the sanitizer does them: what is written with calculated headers is what is written with
+   the parsed headers, and its calculated length is its length *)
+Theorem sanitizer_tree_keeps_headers : forall (p : bytes) (kids kids' : list node) (f g : N -> res N) (l : list unit),
+  moov_check p = Ok kids -> each_trak kids (shift_table f g) = Ok (kids', l) ->
+  puts_calc kids' = Ok (put_nodes kids') /\ lens_calc kids' = Ok (nodes_encoded_len kids') /\
+  nodes_encoded_len kids' = N.of_nat (length p).
+Proof.
+  intros p kids kids' f g l Hm Hs.
+  assert (Hk : forallb node_wf kids = true /\ Forall sized kids /\ nodes_encoded_len kids = N.of_nat (length p)).
+  { unfold moov_check in Hm. destruct (parse_moov p) as [k0| | | |] eqn:Ep; cbn [rbind] in Hm; try discriminate.
+    destruct (each_trak k0 tab_count) as [[k1 cs]| | | |] eqn:Et; cbn [rbind] in Hm; try discriminate.
+    destruct (sum_u32 cs None); cbn [rbind] in Hm; try discriminate. injection Hm as <-.
+    unfold parse_moov in Ep. destruct (parse_boxes (boxes_fuel p) p) as [k00| | | |] eqn:Eb; cbn [rbind] in Ep; try discriminate.
+    destruct (existsb (node_is t_trak) k00); [|discriminate]. injection Ep as <-.
+    pose proof (accessors_are_forcings _ _ _ Et) as Hf.
+    pose proof (parse_boxes_wf _ _ _ Eb) as Hw. pose proof (parse_boxes_sized _ _ _ Eb) as Hz.
+    repeat split; [exact (forces_list_wf _ _ Hf Hw) | exact (forces_list_sized _ _ Hf Hw Hz) |].
+    destruct (encoded_len_agrees _ _ _ _ Eb Hf) as (_ & E & _). exact E. }
+  destruct Hk as (Hw & Hz & El).
+  destruct (Rsz_list _ _ (each_trak_shift_Rsz _ _ _ _ _ Hs) Hw Hz) as (Hw' & Hz' & El').
+  destruct (calc_unchanged_list kids' Hz') as [E1 E2].
+  repeat split; [exact E2 | exact E1 | congruence].
+Qed.
